@@ -33,7 +33,14 @@ var c9mapKeys = []c9key{
 	{"{a: [1]}", "obj{a:[1]}", false, `{"a": [1]}`}, {"[0 + 1]", "arr[1]", false, "[1]"}, {"{'a: 1}", "obj{a:1}", false, `{"a": 1}`},
 }
 
-var c9objNames = []string{"a", "b", "c", "d", "e", "ab", "b1", "_p", "_q", "_a"}
+var c9objNames = []string{"a", "b", "c", "d", "e", "ab", "b1", "_p", "_q", "_a", "a!", "a?", "ab!", "b_", "a b", "a ", "1x", "", "Z", "Zb", "_p!", "_ p"}
+
+var reC9Public = regexp.MustCompile(`^[a-zA-Z][a-zA-Z0-9_]*[!?]?$`)
+var reC9Ident = regexp.MustCompile(`^[a-zA-Z_][a-zA-Z0-9_]*[!?]?$`)
+
+// c9public: names the language lists as public keys (symbol-like, not starting with `_`); everything else —
+// private names and strings that are not symbols — is listed after them, each group in plain string order.
+func c9public(name string) bool { return reC9Public.MatchString(name) }
 
 type c9pair struct {
 	key c9key
@@ -73,6 +80,8 @@ type c9case struct {
 	src   string
 	model []c9pair // first-wins, insertion order (literal pairs, then ** operands)
 	tags  []string
+	// operands written through a variable: they must be what they were after the literal has been built
+	operands map[string][]c9pair
 }
 
 func genObjCase(rng *rand.Rand, next *int) c9case {
@@ -90,7 +99,11 @@ func genObjCase(rng *rand.Rand, next *int) c9case {
 		}
 		used[name] = true
 		var keySrc string
-		switch rng.Intn(4) {
+		form := rng.Intn(4)
+		if !reC9Ident.MatchString(name) && form < 2 {
+			form = 2 + rng.Intn(2) // not an identifier: quoted or pinned only
+		}
+		switch form {
 		case 0:
 			keySrc = name
 		case 1:
@@ -99,9 +112,12 @@ func genObjCase(rng *rand.Rand, next *int) c9case {
 			keySrc = `"` + name + `"`
 		default:
 			kv := fmt.Sprintf("kv%d", len(prelude))
-			prelude = append(prelude, fmt.Sprintf("%s := '%s", kv, name))
+			prelude = append(prelude, fmt.Sprintf("%s := \"%s\"", kv, name))
 			keySrc = "^" + kv
 			c.tags = append(c.tags, "pinned")
+		}
+		if !c9public(name) && !strings.HasPrefix(name, "_") {
+			c.tags = append(c.tags, "non-symbol-key")
 		}
 		parts = append(parts, fmt.Sprintf("%s: %s", keySrc, c9v(v)))
 		c.model = c9insert(c.model, c9pair{c9key{src: name, ident: name, insp: `"` + name + `"`}, v})
@@ -116,7 +132,7 @@ func genObjCase(rng *rand.Rand, next *int) c9case {
 		for j := rng.Intn(5); j > 0; j-- {
 			name := c9objNames[rng.Intn(len(c9objNames))]
 			v := c9next(rng, next)
-			inner = append(inner, fmt.Sprintf("%s: %s", name, c9v(v)))
+			inner = append(inner, fmt.Sprintf("\"%s\": %s", name, c9v(v)))
 			local = c9insert(local, c9pair{c9key{src: name, ident: name, insp: `"` + name + `"`}, v})
 		}
 		for _, p := range local {
@@ -131,6 +147,10 @@ func genObjCase(rng *rand.Rand, next *int) c9case {
 			ov := fmt.Sprintf("ov%d", len(prelude))
 			prelude = append(prelude, ov+" := "+lit)
 			lit = ov
+			if c.operands == nil {
+				c.operands = map[string][]c9pair{}
+			}
+			c.operands[ov] = local
 		}
 		parts = append(parts, "**"+lit)
 		c.tags = append(c.tags, "unpack")
@@ -168,11 +188,11 @@ func genMapCase(rng *rand.Rand, next *int) c9case {
 			for j := rng.Intn(4); j > 0; j-- {
 				name := c9objNames[rng.Intn(len(c9objNames))]
 				v := c9next(rng, next)
-				inner = append(inner, fmt.Sprintf("%s: %s", name, c9v(v)))
+				inner = append(inner, fmt.Sprintf("\"%s\": %s", name, c9v(v)))
 				local = c9insert(local, c9pair{c9key{src: `"` + name + `"`, ident: "str|" + name, scalar: true, insp: `"` + name + `"`}, v})
 			}
 			sort.SliceStable(local, func(i, j int) bool {
-				pi, pj := strings.HasPrefix(local[i].key.ident, "str|_"), strings.HasPrefix(local[j].key.ident, "str|_")
+				pi, pj := !c9public(strings.TrimPrefix(local[i].key.ident, "str|")), !c9public(strings.TrimPrefix(local[j].key.ident, "str|"))
 				if pi != pj {
 					return !pi
 				}
@@ -231,7 +251,7 @@ func c9check(ip *interp.Interp, c *c9case) (key, detail string) {
 	if c.kind == "obj" {
 		var pub, priv []c9pair
 		for _, p := range c.model {
-			if strings.HasPrefix(p.key.ident, "_") {
+			if !c9public(p.key.ident) {
 				priv = append(priv, p)
 			} else {
 				pub = append(pub, p)
@@ -265,6 +285,12 @@ func c9check(ip *interp.Interp, c *c9case) (key, detail string) {
 			}
 		}
 		for _, p := range c.model {
+			if k, d := expect("index present", "o[\""+p.key.ident+"\"]", c9v(p.val)); k != "" {
+				return k, d
+			}
+			if !reC9Ident.MatchString(p.key.ident) {
+				continue
+			}
 			if k, d := expect("index present", "o['"+p.key.ident+"]", c9v(p.val)); k != "" {
 				return k, d
 			}
@@ -274,6 +300,38 @@ func c9check(ip *interp.Interp, c *c9case) (key, detail string) {
 		}
 		if k, d := expect("index absent", "o['zq]", "nil"); k != "" {
 			return k, d
+		}
+		for ov, local := range c.operands {
+			var opub, opriv []c9pair
+			for _, p := range local {
+				if c9public(p.key.ident) {
+					opub = append(opub, p)
+				} else {
+					opriv = append(opriv, p)
+				}
+			}
+			sort.Slice(opub, func(i, j int) bool { return opub[i].key.ident < opub[j].key.ident })
+			sort.Slice(opriv, func(i, j int) bool { return opriv[i].key.ident < opriv[j].key.ident })
+			if k, d := expect("** operand unchanged by the literal", ov+".items(private?: true)", render(append(opub, opriv...), "i")); k != "" {
+				return k, d
+			}
+			// keys the operand never had stay absent from it (index, printed form)
+			for _, p := range c.model {
+				has := false
+				for _, q := range local {
+					if q.key.ident == p.key.ident {
+						has = true
+					}
+				}
+				if !has {
+					if k, d := expect("** operand unchanged by the literal", ov+"[\""+p.key.ident+"\"]", "nil"); k != "" {
+						return k, d
+					}
+				}
+			}
+			if k, d := expect("** operand unchanged by the literal", ov+".S == "+ov+".items(private?: true).O.S", "true"); k != "" {
+				return k, d
+			}
 		}
 		// printing: the multiset of values printed equals all values (private included)
 		for _, acc := range []string{"o.S", "o.repr", "o"} {
